@@ -132,3 +132,28 @@ Theorem C05_min_delta_with_saturated_pixels :
     ext_rise_ok d top bottom = (d <=? emb M top - emb M bottom).
 Proof. exact emb_rise_ok. Qed.
 Print Assumptions C05_min_delta_with_saturated_pixels.
+
+(* While a parentless leaf grows, compute tests it again at every meeting - with more own
+   pixels and a meeting value that is no higher.  For min_delta, min_npix, min_peak and
+   contains_seeds a leaf that passed once passes ever after; for min_sum it need not (negative
+   pixels), so for min_sum "the criteria are satisfied at the meeting value" really depends
+   on the test being repeated at the final meeting (as the model does and C05_leaf_with_parent
+   states). *)
+From Dendro Require Import CritMono.
+Theorem C05_monotone_criteria_stay_satisfied_while_a_leaf_grows :
+  forall cs o q v v',
+    forallb monotone_crit cs = true -> o <> [] -> v' <= v ->
+    indep_of cs o (Some v) = true -> indep_of cs (o ++ q) (Some v') = true.
+Proof. exact indep_stays_while_growing. Qed.
+Print Assumptions C05_monotone_criteria_stay_satisfied_while_a_leaf_grows.
+
+Theorem C05_min_sum_can_be_lost_while_a_leaf_grows :
+  exists o q v v', o <> [] /\ v' <= v /\
+    indep_of [MinSum 5] o (Some v) = true /\ indep_of [MinSum 5] (o ++ q) (Some v') = false.
+Proof. exact min_sum_may_be_lost. Qed.
+Print Assumptions C05_min_sum_can_be_lost_while_a_leaf_grows.
+
+Example C05_monotone_premises_hold :
+  forallb monotone_crit [MinDelta 2; MinNpix 3 2; MinPeak 4; Seeds [0]] = true /\
+  indep_of [MinDelta 2; MinNpix 3 2; MinPeak 4; Seeds [0]] [(0, 5); (1, 4)] (Some 3) = true.
+Proof. vm_compute. split; reflexivity. Qed.
